@@ -62,6 +62,14 @@ async def scenario(prog):
     sig = []
     for step, item in enumerate(prog):
         line, cls = item[0], item[1]
+        if cls == 'elsewhere':
+            # another connection of the same user acts (e.g. deletes the mailbox this connection has selected): the state
+            # of THIS connection is what it was -- in particular CLOSE must still succeed and deselect afterwards
+            o = await w.client('o')
+            await o.cmd(line)
+            await o.cmd(b'LOGOUT')
+            sig.append((line.split(b' ')[0], cls, state, b''))
+            continue
         before = await data_dump(w)
         if line == b'IDLE':
             r = await c.cmd(line, [b'DONE\r\n'])
@@ -154,6 +162,10 @@ PREFIXES = {
     'selected-then-failed': [(b'LOGIN testuser testpass', 'nonauth'), (b'SELECT INBOX', 'auth'),
                              (b'SELECT Nope', 'auth')],
     'empty-selected': [(b'LOGIN testuser testpass', 'nonauth'), (b'CREATE Empty', 'auth'), (b'SELECT Empty', 'auth')],
+    'selected-then-deleted-elsewhere': [(b'LOGIN testuser testpass', 'nonauth'), (b'CREATE Tmp', 'auth'),
+                                        (b'SELECT Tmp', 'auth'), (b'DELETE Tmp', 'elsewhere')],
+    'examined-then-renamed-elsewhere': [(b'LOGIN testuser testpass', 'nonauth'), (b'CREATE Tmp', 'auth'),
+                                        (b'EXAMINE Tmp', 'auth'), (b'RENAME Tmp Tmp2', 'elsewhere')],
 }
 
 
